@@ -451,7 +451,7 @@ def main(tier: str, seed: int):
     sess.assume("contribution values are not part of T1Result; they are observed through the touched set (EPS cut-off, node budget), max_delta and the counters, compared with the reference model")
     sess.assume("iter_cap_layers and relax_cap are read by the stage but rejected by the validator; they are exercised on raw (unvalidated) configs, where an exception from the stage is not counted")
     sess.assume("with perf frontier/visited/dedupe caps on only the model-free invariants and hooked counts are enforced")
-    total = 6000 if tier == "quick" else 150000
+    total = 6000 if tier == "quick" else 600000
     nchunks = par.NWORK * (1 if tier == "quick" else 4)
     per = max(1, total // nchunks)
     for ex in par.pmap(_chunk, [(tier, seed, i, per) for i in range(nchunks)]):
